@@ -137,3 +137,18 @@ def artefact(res, suffix="_vela.tflite"):
         if f.endswith(suffix):
             return os.path.join(out, f)
     return None
+
+
+def corpus_jobs(capture=True):
+    """networks kept from earlier findings; run first by the end-to-end checks"""
+    jobs = []
+    cdir = os.path.join(vlib.ROOT, "corpus")
+    for f in sorted(glob.glob(os.path.join(cdir, "*.json"))):
+        d = json.load(open(f))
+        if "tflite" not in d:
+            continue
+        path = os.path.join(cdir, d["tflite"])
+        sha = hashlib.sha256(open(path, "rb").read()).hexdigest()[:16]
+        args = [CONFIG_INI if a == "@CONFIG_INI@" else a for a in d["args"]]
+        jobs.append({"tflite": path, "sha": sha, "args": args, "capture": capture, "family": "corpus", "seed": os.path.basename(f)})
+    return jobs
